@@ -150,6 +150,11 @@ func buildMaterial1(r *run.Rng, idx int, shape string, T0 uint32, selfIdx int) (
 	for attempt := 0; attempt < 4*want && len(mat.Tree) < want; attempt++ {
 		var p tn
 		switch {
+		case shape == "lateconfirms" && len(mat.Tree) == 1:
+			// the first block is a decoy: the chain starts next to it. The node signs the decoy when it is inserted and
+			// therefore none of the chain's blocks (another fork, not far enough); when the chain's tip becomes stable the
+			// background signer has the ancestors to sign while the late packets for them arrive
+			p = nodes[0]
 		case chainLike:
 			p = nodes[len(nodes)-1]
 		case shape == "deepchain":
@@ -244,6 +249,9 @@ func buildMaterial1(r *run.Rng, idx int, shape string, T0 uint32, selfIdx int) (
 	}
 	if shape == "minerace" {
 		npre = 1
+	}
+	if shape == "lateconfirms" {
+		npre = 4
 	}
 	for i := 0; i < len(mat.Tree) && len(mat.Pre) < npre; i++ {
 		if p := mat.Tree[i].Parent; p == -1 || inPre[p] {
@@ -352,6 +360,9 @@ func buildMaterial1(r *run.Rng, idx int, shape string, T0 uint32, selfIdx int) (
 		started := map[int]bool{}
 		left := budget - 1
 		for _, ai := range mat.Pre[:len(mat.Pre)-1] {
+			if ai == 0 {
+				continue // the decoy
+			}
 			ds := signersOf(ai)
 			ds = pick(ds, len(ds))
 			sameClient := r.Chance(1, 2)
